@@ -98,7 +98,7 @@ def chunks(tier):
     nT = len(b["T"])
     step = 4 if tier == "quick" else 3
     out += [("AB", i, min(nT, i + step)) for i in range(0, nT, step)]
-    out += [("Gsym",)]
+    out += [("Gsym",), ("IL",)]
     out += [("G", z) for z in range(-4, 5)]
     out += [("Gu", z) for z in (-3, 1, 2)]
     out += [("P", n, j) for n in (1, 2, 3) for j in range(4 if n == 3 else 1)]
@@ -280,6 +280,41 @@ def _state_I(res, zs, ks, count=True):
     return ok
 
 
+def _state_I_long(res, n, pattern):
+    """long ion lists (n = 8..40 entries): half the sum of b*z^2, every term counted; the warning follows the net charge"""
+    from chempy.electrolytes import ionic_strength
+    from chempy.units import default_units as u
+    import numpy as np
+
+    if pattern == "neutral-pairs":  # +z, -z, ... (an odd n ends with a neutral-making pair split over the last three entries)
+        zs = [((i // 2) % 4 + 1) * (1 if i % 2 == 0 else -1) for i in range(n)]
+        ks = [(i // 2) % 6 for i in range(n)]
+        if n % 2:
+            zs[-1], ks[-1] = 0, 3
+    elif pattern == "all-cations":
+        zs, ks = [(i % 3) + 1 for i in range(n)], [i % 7 for i in range(n)]
+    else:  # "ones"
+        zs, ks = [1 if i % 2 == 0 else -1 for i in range(n)], [0] * n
+    bs = [2.0 ** -k for k in ks]
+    ref = sum(Fraction(b) * z * z for b, z in zip(bs, zs)) / 2
+    net = sum(Fraction(b) * z for b, z in zip(bs, zs))
+    case = dict(layer="IL", n=n, pattern=pattern)
+    res.states += 1
+    res.transitions += n
+    res.nontrivial += 1
+    got, wn = _call_is(res, lambda: ionic_strength(list(bs), list(zs)))
+    ok = _judge(res, "ionic_strength", "list[n=%d]" % n, got, wn, ref, net, case)
+    got, wn = _call_is(res, lambda: ionic_strength(np.array(bs) * u.molal, list(zs)))
+    if not isinstance(got, str):
+        got = _mag_molal(got)
+    ok &= _judge(res, "ionic_strength", "quantity-array[n=%d]" % n, got, wn, ref, net, case)
+    got, wn = _call_is(res, lambda: ionic_strength([b * u.molal for b in bs], tuple(zs)))
+    if not isinstance(got, str):
+        got = _mag_molal(got)
+    ok &= _judge(res, "ionic_strength", "quantities[n=%d]" % n, got, wn, ref, net, case)
+    res.outcomes["long-list-%s" % ("ok" if ok else "VIOLATED")] += 1
+
+
 def _distinct_perms(zs, ks):
     seen, out = set(), []
     for p in itertools.permutations(range(len(zs))):
@@ -351,6 +386,13 @@ def _paths():
     return [
         ("constants+units, same T and rho objects used three times", lambda fn, e, T, r: twice(fn, e, T, r, constants=const, units=u)),
         ("units, same T and rho objects used three times", lambda fn, e, T, r: twice(fn, e, T, r, units=u)),
+        # other number types for the plain path, and the math backend named next to units
+        ("numeric-Fraction", lambda fn, e, T, r: float(fn(Fraction(e), Fraction(T), Fraction(r)))),
+        ("numeric-sympy-numbers", lambda fn, e, T, r: float(fn(sympy.Float(e), sympy.Float(T), sympy.Float(r)))),
+        ("numeric-numpy-scalars", lambda fn, e, T, r: float(fn(__import__("numpy").float64(e), __import__("numpy").float64(T), __import__("numpy").float64(r)))),
+        ("units+backend=math", lambda fn, e, T, r: fin(fn, fn(e, T * K, r * kgm3, units=u, backend=math))),
+        ("units+backend='math'", lambda fn, e, T, r: fin(fn, fn(e, T * K, r * kgm3, units=u, backend="math"))),
+        ("constants+units+backend=math[degR,g/cm3]", lambda fn, e, T, r: fin(fn, fn(e, T * 1.8 * degR, r / 1000 * gcm3, constants=const, units=u, backend=math))),
         ("numeric", lambda fn, e, T, r: float(fn(e, T, r))),
         ("numeric-math", lambda fn, e, T, r: float(fn(e, T, r, backend=math))),
         ("numeric-sympy-lambdified", sym),
@@ -582,6 +624,17 @@ def _state_Gu(res, z, IS, a_nm, count=True):
         ref, sc = _ref_gamma("davies", IS, z, A, C=-0.3, I0=i0)
         ok &= _cmp_gamma(res, "davies", "quantities", lambda: el.davies_log_gamma(ISq, z, A, I0=I0), ref, sc, dict(base, fn="davies", I0=i0n)) is not None
         n += 2
+        # the ionic strength written in another unit of the same dimension than I0 (as ionic_strength returns it for molalities
+        # given in mmol/kg): the ratio I/I0 is a pure number whatever the two units
+        ISm = (IS * 1000.0) * u.mmol / u.kg
+        ref, sc = _ref_gamma("limiting", IS, z, A, I0=i0)
+        ok &= _cmp_gamma(res, "limiting", "quantities", lambda: el.limiting_log_gamma(ISm, z, A, I0=I0), ref, sc * 8 + 1e-15 * abs(ref), dict(base, fn="limiting", I0=i0n, IS_unit="mmol/kg")) is not None
+        ref, sc = _ref_gamma("davies", IS, z, A, C=-0.3, I0=i0)
+        ok &= _cmp_gamma(res, "davies", "quantities", lambda: el.davies_log_gamma(ISm, z, A, I0=I0), ref, sc * 8 + 1e-15 * abs(ref), dict(base, fn="davies", I0=i0n, IS_unit="mmol/kg")) is not None
+        ref, sc = _ref_gamma("extended", IS, z, A, a_nm * 1e-9, B, C, i0)
+        ok &= _cmp_gamma(res, "extended", "quantities", lambda: el.extended_log_gamma(ISm, z, a_nm * u.nm, A, B / u.m, C, I0=I0), ref, sc * 8 + 1e-15 * abs(ref),
+                         dict(base, fn="extended", I0=i0n, IS_unit="mmol/kg", a_unit="nm", B_unit="1/m")) is not None
+        n += 3
         for an, aq in (("m", a_nm * 1e-9 * u.m), ("nm", a_nm * u.nm), ("angstrom", a_nm * 10 * u.angstrom)):
             for Bn, Bq in (("1/m", B / u.m), ("1/nm", B * 1e-9 / u.nm)):
                 ref, sc = _ref_gamma("extended", IS, z, A, a_nm * 1e-9, B, C, i0)
@@ -754,7 +807,12 @@ def run_chunk(chunk, tier):
     res = Result()
     b = bounds(tier)
     kind = chunk[0]
-    if kind == "I":
+    if kind == "IL":
+        for n in (8, 9, 10, 11, 13, 16, 17, 18, 19, 33, 40):
+            for pattern in ("neutral-pairs", "all-cations", "ones"):
+                _state_I_long(res, n, pattern)
+        res.sample(dict(layer="IL", lengths=[8, 9, 10, 11, 13, 16, 17, 18, 19, 33, 40]), limit=1)
+    elif kind == "I":
         _, r, i0, j, J = chunk
         ions = _ions(b["ladders"][str(r)])
         for n, ms in enumerate(_multisets(ions, r, i0)):
@@ -804,7 +862,9 @@ def run_chunk(chunk, tier):
 def replay(case):
     res = Result()
     layer = case["layer"]
-    if layer == "I":
+    if layer == "IL":
+        _state_I_long(res, case["n"], case["pattern"])
+    elif layer == "I":
         _state_I(res, case["zs"], case["ks"], count=False)
     elif layer == "AB":
         _state_AB(res, case["eps"], case["T"], case["rho"], tuple(case["ref"]), {}, count=False)
